@@ -208,7 +208,8 @@ func (r *fileRW) apply(f *ast.File) []byte {
 		imp += `; import sim "verif/sim"`
 	}
 	if r.usesExe {
-		imp += `; import simexec "verif/sim/simexec"; var _ = exec.ErrNotFound`
+		imp += `; import simexec "verif/sim/simexec"`
+		r.edits = append(r.edits, edit{len(r.src), len(r.src), len(r.edits), "\nvar _ = exec.ErrNotFound\n"})
 	}
 	if imp != "" {
 		r.insert(f.Name.End(), imp)
